@@ -54,12 +54,16 @@ class Rule :
                 ):
                     return
 
-            if hasattr(self, 'args') and m.body is not None:
+            if hasattr(self, 'args'):
+                if m.body is None:
+                    return
                 for idx, val in self.args:
                     if idx >= len(m.body) or m.body[idx] != val:
                         return
 
-            if hasattr(self, 'arg_paths') and m.body is not None:
+            if hasattr(self, 'arg_paths'):
+                if m.body is None:
+                    return
                 for idx, val in self.arg_paths:
                     if idx >= len(m.body):
                         return
